@@ -8,6 +8,8 @@ def main(tier, seed, t0, only=None):
     J = mergefam.jobs('C19', 19, tier, pairs=pairs, twice=1)
     J += mergefam.jobs('C19', 19, tier, pairs=[(24, 23), (1, 8), (2, 14)] if not q else [(24, 23), (1, 8)], twice=2, tagx='.then-other-text')
     J += mergefam.jobs('C19', 19, tier, defines=('ALLOC_SIMPLE',), pairs=[(1, 1), (2, 7), (2, 0), (0, 2), (5, 5), (2, 5)] if q else [(1, 1), (2, 7), (2, 0), (0, 2), (5, 5), (13, 13), (2, 11), (1, 12), (2, 5), (12, 14), (3, 15)], twice=0)
+    J += mergefam.jobs('C19', 19, tier, defines=('ALLOC_SIMPLE',), pairs=[(24, 23), (1, 8)], twice=3, tagx='.swap')
+    J += mergefam.jobs('C19', 19, tier, pairs=[(24, 23)], twice=3, tagx='.swap')
     for j in mergefam.jobs('C19', 19, tier, defines=('ALLOC_SIMPLE',), pairs=[(1, 1), (2, 7)], twice=1):
         j.name += '.twice'; J.append(j)
     if only: J = [j for j in J if re.search(only, j.name)]
